@@ -186,6 +186,7 @@ func IsOwner(p unsafe.Pointer, tag string) bool { return true }
 
 // IsStatic: p points into immutable static data (string literals). Natively: the gc toolchain on linux/amd64
 // places static data far below the heap arena, which starts at 0xc000000000.
+func GuardedBy(mu, p unsafe.Pointer)        {}
 func IsStatic(p unsafe.Pointer) bool        { return uintptr(p) < 0xc000000000 }
 func BlockID(p unsafe.Pointer) uint64       { return uint64(uintptr(p)) &^ 0 }
 func BlockOff(p unsafe.Pointer) uint64      { return 0 }
